@@ -78,7 +78,11 @@ func propC01(o *propOpts) *propResult {
 			key := "input:" + e.name + ":" + hx(s)
 			if r := safeParse(e, s); r.err == nil && r.panicked == nil && !r.hung {
 				if site := knownSite(s, r.nodes, "C01"); site != "" {
-					key = site
+					if s2 := neutralise(site, s); s2 != s {
+						if _, d2 := c01Check(e, s2); d2 == "" {
+							key = site
+						}
+					}
 				}
 			}
 			res.fail(key, s, e.name, d)
@@ -216,7 +220,12 @@ func propC06(o *propOpts) *propResult {
 		if d != "" {
 			if r := safeParse(e, s); r.err == nil && r.panicked == nil && !r.hung {
 				if site := knownSite(s, r.nodes, "C06"); site != "" {
-					key = site
+					if s2 := neutralise(site, s); s2 != s {
+						b2 := 100000
+						if _, _, d2 := c06Check(e, s2, &b2); d2 == "" {
+							key = site
+						}
+					}
 				}
 			}
 			res.fail(key, s, e.name, d)
